@@ -1,6 +1,7 @@
 (* C19 - the transform pipeline: deserialize (any reordering of (serialize c)) = c, for every
-   well-typed configuration (all 2^16 field subsets, all values), under  b64dec (b64enc b) = b. *)
-From YV Require Import Common.Tac C19.C19Str C19.C19Model C19.C19Lib C19.C19PipeLib.
+   well-typed configuration (all 2^16 field subsets, all values, binary attributes of any length),
+   under  b64dec (b64enc b) = b  for byte strings b. *)
+From YV Require Import Common.Tac C19.C19Str C19.C19B64 C19.C19Model C19.C19Lib C19.C19PipeLib.
 From Coq Require Import Permutation.
 Local Open Scope N_scope.
 
@@ -36,7 +37,7 @@ Proof. intros c. unfold view. rewrite !tvo_id. destruct c; reflexivity. Qed.
 Section Pipe.
   Variable b64enc : list N -> str.
   Variable b64dec : str -> option (list N).
-  Hypothesis b64_rt : forall b, b64dec (b64enc b) = Some b.
+  Hypothesis b64_rt : forall b, bytes_ok b = true -> b64dec (b64enc b) = Some b.
 
   (* ---- key functions of the stages ---- *)
   Lemma kf_filter : keyfun t_filter (fun x => fst x).
@@ -191,7 +192,7 @@ Section Pipe.
         revert W; destruct f as [[[?|?]|?|? ?|?]|]; intros W; try discriminate W;
         unfold Hc, Gfin, Gs, Fr, kcomp; cbn; rewrite ?tv_str; cbn; try reflexivity;
         unfold r_props, dec_field, is_bytes_key, r_filter; cbn -[firstn skipn length Nat.eqb];
-        rewrite ?b64_rt; cbn -[firstn skipn length Nat.eqb]; try reflexivity
+        try rewrite (b64_rt _ W); cbn -[firstn skipn length Nat.eqb]; try reflexivity
       end
     end.
 
@@ -203,8 +204,12 @@ Section Pipe.
     all: field_case2.
     (* the key pair: 64 bytes split at 32 *)
     match goal with W : is_keypair _ = true |- _ =>
-      unfold is_keypair in W; apply andb_true_iff in W; destruct W as [L1 L2] end.
+      unfold is_keypair in W; apply andb_true_iff in W; destruct W as [W B2];
+      apply andb_true_iff in W; destruct W as [W B1];
+      apply andb_true_iff in W; destruct W as [L1 L2] end.
     apply Nat.eqb_eq in L1. apply Nat.eqb_eq in L2.
+    rewrite b64_rt by (unfold bytes_ok in *; rewrite forallb_app, B1, B2; reflexivity).
+    cbn -[firstn skipn length Nat.eqb].
     match goal with |- context [length (?a ++ ?b)] => rewrite (keypair_back a b L1 L2) end.
     reflexivity.
   Qed.
